@@ -321,6 +321,22 @@ def _logged_async(log, fn):
     return wrapper
 
 
+def _thread_role(args):
+    """Which library thread ended with an exception: decided from the traceback (Thread._target is gone by then)."""
+    import traceback
+    names = [f.name for f in traceback.extract_tb(args.exc_traceback)]
+    if "_poll_queue" in names:
+        return "_poll_queue"
+    if "sync_connect" in names or "_connect" in names:
+        return "connect-thread"
+    return type(args.thread).__name__ if args.thread is not None else "?"
+
+
+def _where(args):
+    import traceback
+    return [f"{f.filename.rsplit('/', 1)[-1]}:{f.name}" for f in traceback.extract_tb(args.exc_traceback)][-4:]
+
+
 def run_real(kind, flavour, script, rt=0.4, answer=True, hold=0.0):
     """One lifetime of a real gateway against a real (loopback / pty) device. Returns (events, meta)."""
     import serial
@@ -338,8 +354,7 @@ def run_real(kind, flavour, script, rt=0.4, answer=True, hold=0.0):
 
     def hook(args):
         if not (args.thread and args.thread.name.startswith("dev-")):
-            meta["thread_errors"].append((getattr(getattr(args.thread, "_target", None), "__name__", None) or type(args.thread).__name__,
-                                          type(args.exc_value).__name__, str(args.exc_value)[:120]))
+            meta["thread_errors"].append((_thread_role(args), type(args.exc_value).__name__, str(args.exc_value)[:120]))
 
     threading.excepthook = hook
     loop = None
@@ -574,4 +589,157 @@ def check_real(events, meta):
             meta["other_thread_errors"] = meta.get("other_thread_errors", 0) + 1
     for msg in meta.get("loop_errors", []):
         V.append((f"real:loop-error:{tag}", f"unhandled error in the event loop: {msg}"))
+    return V
+
+
+# ------------------------------------------------------------------------------------------------ C16 stress
+def run_stress(kind, seed, churn_s=2.0, producers=3, rt=0.05, pace=(0.003, 0.01, 0.03, 0.08)):
+    """Real threaded gateway, real device: producer threads queue uniquely numbered commands while the device keeps
+    killing the connection; afterwards the link is left alone and a final batch is queued.
+    Returns dict(received=[(cid, id)], queued={p: n}, final=[ids], errors=[...], events=log)."""
+    import random
+    import mysensors.gateway_serial as mgs
+    import mysensors.gateway_tcp as mgt
+
+    rng = random.Random(seed)
+    log = Log()
+    tmp = tempfile.mkdtemp(prefix="vf-stress-")
+    errors = []
+    old_hook = threading.excepthook
+
+    def hook(args):
+        if not (args.thread and args.thread.name.startswith(("dev-", "vf-"))):
+            errors.append((_thread_role(args), type(args.exc_value).__name__, str(args.exc_value)[:120],
+                           _where(args)))
+
+    threading.excepthook = hook
+    dev = TcpDevice(log, True) if kind == "tcp" else PtyDevice(log, tmp)
+    out = {"kind": kind, "seed": seed, "errors": errors}
+    try:
+        if kind == "tcp":
+            gw = mgt.TCPGateway("127.0.0.1", port=dev.port, protocol_version="2.2", reconnect_timeout=rt)
+        else:
+            gw = mgs.SerialGateway(dev.link, protocol_version="2.2", reconnect_timeout=rt, timeout=0.1)
+        gw.on_conn_made = lambda *a: log.add("MADE", True)
+        gw.on_conn_lost = lambda *a: log.add("LOST", True, None)
+        gw.start()
+        log.wait(lambda: log.count("MADE") >= 1, 5.0, "first connection")
+        stop_prod = threading.Event()
+        counts = {}
+
+        def producer(p):
+            n = 0
+            r = random.Random(seed * 31 + p)
+            while not stop_prod.is_set():
+                n += 1
+                line = f"9;{p};1;0;24;{p * 1000000 + n}\n"
+                gw.tasks.add_job(str, line)
+                counts[p] = n
+                time.sleep(r.choice([0.0, 0.0005, 0.002]))
+
+        threads = [threading.Thread(target=producer, args=(p,), daemon=True, name=f"vf-prod-{p}") for p in range(1, producers + 1)]
+        for t in threads:
+            t.start()
+        t_end = time.monotonic() + churn_s
+        drops = 0
+        while time.monotonic() < t_end:
+            time.sleep(rng.choice(pace))
+            if dev.live() is not None:
+                if kind == "tcp":
+                    dev.drop(rng.choice(["rst", "eof"]))
+                else:
+                    dev.drop("unplug")
+                    time.sleep(0.01)
+                    dev.up()
+                drops += 1
+        stop_prod.set()
+        for t in threads:
+            t.join(2.0)
+        out["drops"] = drops
+        # faults stop here: the link must come back and carry commands again
+        n_made = log.count("MADE")
+        settled = log.wait(lambda: dev.live() is not None and (getattr(dev.live(), "peer_open", True)) and log.count("MADE") >= 1
+                           and log.count("MADE") > log.count("LOST"), 10 * rt + 5.0, "link re-established after the churn")
+        time.sleep(0.3)
+        log.add("ACTION", "final-batch", None)
+        final = []
+        for k in range(20):
+            for p in range(1, producers + 1):
+                i = p * 1000000 + 900000 + k
+                final.append(i)
+                gw.tasks.add_job(str, f"9;{p};1;0;24;{i}\n")
+        want = set(final)
+
+        def got_final():
+            seen = set()
+            for e in log.snap():
+                if e[1] == "RX":
+                    for part in e[3].split(b"\n"):
+                        f = part.split(b";")
+                        if len(f) == 6 and f[5].isdigit():
+                            seen.add(int(f[5]))
+            return want <= seen
+
+        out["final_delivered"] = log.wait(got_final, 8.0, "final batch delivered")
+        out["settled"] = settled
+        log.add("STOPPING")
+        gw.stop()
+        log.add("STOPPED")
+        time.sleep(0.3)
+        out["queued"] = dict(counts)
+        out["final"] = final
+    finally:
+        threading.excepthook = old_hook
+        try:
+            dev.close()
+        except Exception:
+            pass
+        shutil.rmtree(tmp, ignore_errors=True)
+    out["events"] = log.snap()
+    return out
+
+
+def check_stress(out):
+    """Commands queued from several threads: each written at most once, complete, in queue order per producer; the pump
+    survives; once the faults stop every queued command is written."""
+    V = []
+    kind = out["kind"]
+    per_conn = {}
+    for e in out["events"]:
+        if e[1] == "RX":
+            per_conn.setdefault(e[2], bytearray()).extend(e[3])
+    seen = {}
+    order = {}
+    garbled = 0
+    for cid, buf in sorted(per_conn.items()):
+        parts = bytes(buf).split(b"\n")
+        for part in parts[:-1]:            # the last element is an unterminated tail (cut by the connection's end)
+            if not part or b";255;3;0;2;" in part + b";":
+                continue
+            f = part.split(b";")
+            if len(f) != 6 or f[:1] != [b"9"] or f[2:5] != [b"1", b"0", b"24"] or not f[5].isdigit():
+                garbled += 1
+                V.append((f"real-stress:garbled-command:{kind}", f"connection {cid} received {part[:60]!r}, not one complete queued command"))
+                continue
+            i = int(f[5])
+            seen[i] = seen.get(i, 0) + 1
+            order.setdefault(i // 1000000, []).append(i)
+    dup = [i for i, n in seen.items() if n > 1]
+    if dup:
+        V.append((f"real-stress:command-written-twice:{kind}", f"{len(dup)} commands were received twice by the device, e.g. {dup[:3]}"))
+    for p, ids in order.items():
+        if ids != sorted(ids):
+            k = next(j for j in range(1, len(ids)) if ids[j] < ids[j - 1])
+            V.append((f"real-stress:queue-order:{kind}", f"producer {p}: command {ids[k]} was written after {ids[k - 1]}"))
+    for n, tname, msg, where in out["errors"]:
+        if str(n).startswith("_poll_queue"):
+            V.append((f"real-stress:pump-died:{tname}@{where[-1] if where else '?'}:{kind}", f"the poll thread died: {tname}: {msg} at {where}"))
+    if out.get("settled") and not out.get("final_delivered"):
+        missing = [i for i in out.get("final", []) if i not in seen]
+        V.append((f"real-stress:commands-dropped-on-a-stable-link:{kind}",
+                  f"after the faults stopped and the link was re-established, {len(missing)} of {len(out.get('final', []))} queued commands never reached the device"))
+    if not out.get("settled"):
+        V.append((f"real-stress:link-not-re-established:{kind}", "the link was not re-established after the faults stopped"))
+    out["stats"] = {"received": sum(seen.values()), "distinct": len(seen), "queued": sum(out.get("queued", {}).values()), "drops": out.get("drops", 0),
+                    "connections": len(per_conn), "other_thread_errors": sum(1 for e in out["errors"] if not str(e[0]).startswith("_poll_queue"))}
     return V
